@@ -10,6 +10,7 @@ import ASV.Proofs.RegionsHeld
 import ASV.Proofs.RegionsReload
 import ASV.Proofs.RegionsRing
 import ASV.Proofs.RegionsRingShort
+import ASV.Proofs.RegionsGiven
 namespace ASV.C06
 open ASV ASV.Regions ASV.Components
 
@@ -233,6 +234,41 @@ theorem ring_region_is_shortest_cover (s s' : State) (hL : 0 < s.len) (hi : Inv 
     (hring : ∀ f ∈ s.cands ++ s.subs, RingArea s.len f.loc) (h : createRegions s = .ok s') :
     RegionsShortest s.len s' :=
   createRegions_shortest s s' hL hi hreg hring h
+
+/-! ### `create_regions(candidate_clusters=…, subregions=…)`: regions are built from exactly the given areas -/
+
+/-- On a record without regions, linear or circular, whatever the locations: after
+    `create_regions(candidate_clusters=cs, subregions=ss)` the regions' children, concatenated, are a rearrangement
+    of exactly the ids that were passed — an area of the record that was not passed is in no region (also when one
+    of the two lists is explicitly EMPTY: it is not replaced by the record's own areas), every passed area is in
+    exactly one. -/
+theorem explicit_lists_regions_hold_exactly_the_given_areas (s s' : State) (cs ss : List Nat) (hreg : s.regions = [])
+    (h : step s (.createRegionsWith cs ss) = .ok s') :
+    ((s'.regions.map memberIds).flatten).Perm (cs ++ ss) :=
+  createRegionsWith_members_given hreg h
+
+/-- … and (given areas = non-empty single spans inside the record, none spanning the origin; linear or circular
+    record) the call **succeeds** and the regions are the connected components of the GIVEN areas only: two given
+    candidate clusters with no chain of given areas between them stay in two regions even if a subregion of the
+    record bridges them.  (`createRegionsOf s cands subs` is the body of the op; `createRegionsOf_eq`: it behaves
+    like `create_regions()` on a record holding just those areas.) -/
+theorem explicit_lists_regions_are_components_of_the_given_areas (s : State) (cands subs : List Feat)
+    (hreg : s.regions = []) (hareas : ∀ f ∈ cands ++ subs, LineArea s.len f.loc) :
+    ∃ (s' : State) (groups : List (List Feat)), createRegionsOf s cands subs = .ok s' ∧
+      IsComponents ((cands ++ subs).map toArea) (groups.map (·.map toArea)) ∧
+      s'.regions.map view = groups.map expectedRegion ∧
+      s'.regions.Pairwise (fun r r' => ¬ r.loc.SharesBase r'.loc) :=
+  createRegionsOf_components s cands subs hreg hareas
+
+/-- non-vacuity, the seeded layout: candidate clusters [100,200) and [300,400) given with `subregions=[]` while the
+    record holds the bridging subregion [150,350): two regions, the subregion in neither -/
+example :
+    (step { len := 1000, circular := false,
+            cands := [⟨3, .cand, .simple ⟨100, 200, .fwd⟩, [0], [], []⟩, ⟨4, .cand, .simple ⟨300, 400, .fwd⟩, [1], [], []⟩],
+            subs := [⟨2, .sub, .simple ⟨150, 350, .fwd⟩, [], [], []⟩], nextId := 5 }
+        (.createRegionsWith [3, 4] [])).toOption.map (fun s => s.regions.map view) =
+      some [(.simple ⟨100, 200, .fwd⟩, [3], []), (.simple ⟨300, 400, .fwd⟩, [4], [])] := by
+  decide +kernel
 
 /-! ### what is *not* proved for circular records (left to the executable spec + correspondence)
 
